@@ -339,6 +339,10 @@ pub const REPL_LINES: &[&str] = &[
     "f = y => [y, \"closure\"]",
     "e = f(2)",
     "{k: (b = [\"x\", \"y\"]), z: 1 / \"0\"}",
+    "g = (b = \"kept\") + 1",
+    "h = [a = [1, 2], nope]",
+    "i = {k: (c = {deep: \"rec\"}), z: nope}",
+    "j = \"allocate \" + \"something\"",
 ];
 const REPL_NAMES: &[&str] = &["a", "b", "c", "d", "e"];
 
@@ -639,13 +643,21 @@ fn session_case(tape: &[u16]) -> Case {
                     "do {\n  // only a comment\n  return (leak_d = 5) + 1\n}",
                     "[1] via (leak_e => leak_e)",
                     "map([1], q => (leak_f = q))",
-                ][t.pick(11)]
+                    "q1 = (keep_s = \"kept\") + 1",
+                    "q2 = [keep_l = [1, 2], nope_zz]",
+                    "q3 = {k: (keep_r = {deep: \"rec\"}), z: nope_zz}",
+                    "q4 = \"allocate \" + \"something\"",
+                    "q5 = [\"more\", [\"allocations\"]]",
+                ][t.pick(16)]
                 .into(),
             ),
             _ => {}
         }
     }
     names.push("fresh_q".into());
+    for n in ["keep_s", "keep_l", "keep_r", "q1", "q2", "q3", "q4", "q5"] {
+        names.push(n.into());
+    }
     Case::Session { stmts, top_level_names: names }
 }
 
